@@ -54,6 +54,26 @@ def _src():
         kernels.append(kn)
         L += ["@proc", f"def {kn}(n: size, y: f32[{shp}], x: f32[{shp}]):", "    assert n >= 2",
               f"    for i in seq({lo}, {hi}):", f"        y[{di}] = x[{si}]", ""]
+    # ---- callee-local buffers: allocations inside the callee body must be matched by the block's own allocations
+    callees += ["rt_c_tmp", "rt_c_two"]
+    L += ["@proc", "def rt_c_tmp(n: size, d: [f32][n], s: [f32][n]):", "    for i in seq(0, n):", "        tmp: f32",
+          "        tmp = s[i]", "        d[i] = tmp", ""]
+    L += ["@proc", "def rt_c_two(n: size, d: [f32][n], a: [f32][n], b: [f32][n]):", "    for i in seq(0, n):",
+          "        t1: f32", "        t2: f32", "        t1 = a[i]", "        t2 = b[i]", "        d[i] = t1 - t2", ""]
+    for nm, body in {
+        "inst": ["for i in seq(0, 8):", "    c: f32", "    c = x[i]", "    y[i] = c", "out[0] = y[0]"],
+        "outer": ["last: f32", "last = 0.0", "for i in seq(0, 8):", "    c: f32", "    last = x[i]", "    y[i] = last",
+                  "out[0] = last"],
+        "two_inst": ["for i in seq(0, 8):", "    u: f32", "    v: f32", "    u = x[i]", "    v = z[i]", "    y[i] = u - v",
+                     "out[0] = y[0]"],
+        "two_reuse": ["for i in seq(0, 8):", "    u: f32", "    v: f32", "    u = x[i]", "    u = z[i]", "    y[i] = u - u",
+                      "out[0] = y[0]"],
+        "two_swap": ["for i in seq(0, 8):", "    u: f32", "    v: f32", "    v = x[i]", "    u = z[i]", "    y[i] = u - v",
+                     "out[0] = y[0]"],
+    }.items():
+        kn = f"rt_k_{nm}"
+        kernels.append(kn)
+        L += ["@proc", f"def {kn}(x: f32[8], z: f32[8], y: f32[8], out: f32[1]):"] + ["    " + b for b in body] + [""]
     return "\n".join(L), callees, kernels
 
 
